@@ -634,7 +634,7 @@ Lemma word_digit1 : word_tok "1". Proof. reflexivity. Qed.
 Lemma first_atom w : word_tok w -> first_ok (TAtom w). Proof. right; eauto. Qed.
 Lemma last_atom w : word_tok w -> last_ok (TAtom w). Proof. right; eauto. Qed.
 
-#[local] Hint Resolve follow_TQ follow_TColon follow_TR follow_TRB follow_TL follow_TLB follow_TDot follow_Div
+#[export] Hint Resolve follow_TQ follow_TColon follow_TR follow_TRB follow_TL follow_TLB follow_TDot follow_Div
   pre_TL pre_TLB pre_TQ pre_TColon pre_Not pre_Div first_Not first_TL last_TR last_TRB word_digit0 word_digit1 first_atom last_atom
   in_follow_bin in_follow_post in_pre_bin in_pre_pre in_first_pre in_last_post : toks.
 
